@@ -26,6 +26,7 @@ import QV.Model.States
 import QV.Lemmas.Prob
 import QV.Lemmas.Gibbs
 import QV.Lemmas.PyFlag
+import QV.Lemmas.CallShape
 
 namespace QV.Props
 namespace C05
@@ -494,6 +495,79 @@ example : (Prog.flipVec 2 (fun _ => (5 : ℕ))).run [true] = none := rfl
 
 /-- the hypotheses of `C05_overwrite` are satisfiable: caller tensor with id 1, fresh ids from 2 -/
 example : (1 : ℕ) < 2 := by decide
+
+
+/-! ## Extension round 2: the 1-D / batched / mixed call forms of the public conditionals (`auto_unsqueeze_args`) -/
+
+/-- **C05.9** every public conditional-probability method, as the caller reaches it through `@auto_unsqueeze_args()`
+(qucumber/utils/__init__.py:20-43), satisfies the call-form specification `CallFormsAgree` with the exact conditional of
+`C05_cond_h` / `C05_cond_v` / `C05_cond_ha` as its per-state value: the 1-D form returns the `(h,)` / `(n,)` / `(a,)` probability
+vector of that state, a tensor with leading axes (batch incl. `B = 1`, rank-3 chains) a result of exactly that leading shape whose
+row `idx` is the conditional of row `idx`; likewise the traced `PurificationRBM.effective_energy(v)`. -/
+theorem C05_call_forms (r : RBM ℝ n h) (q : PRBM ℝ n h a) :
+    CallFormsAgree r.probHGivenV r.probH
+      ∧ CallFormsAgree r.probVGivenH r.probV
+      ∧ CallFormsAgree q.probHGivenV q.probH
+      ∧ CallFormsAgree q.probAGivenV q.probA
+      ∧ CallFormsAgree (fun v => q.effectiveEnergy v none) q.effEnergy :=
+  ⟨callFormsAgree_map _, callFormsAgree_map _, callFormsAgree_map _, callFormsAgree_map _, callFormsAgree_map _⟩
+
+/-- **C05.9'** in the words of the work plan: the vector form on a state is row `i` of the batched form on any `(B, ·)` batch
+whose row `i` is that state, with result shapes `()` (one probability vector) and `(B,)` (one per row). -/
+theorem C05_vector_form_is_row (r : RBM ℝ n h) (q : PRBM ℝ n h a) (v : Fin n → ℝ) (hid : Fin h → ℝ) (B : ℕ)
+    (vs : ℕ → Fin n → ℝ) (hs : ℕ → Fin h → ℝ) (i : ℕ) (hi : i < B) (hv : vs i = v) (hh : hs i = hid) :
+    (∃ o oB, r.probHGivenV (.scalar v) = .ok o ∧ r.probHGivenV (.ofRows B vs) = .ok oB ∧ o.shape = [] ∧ oB.shape = [B]
+        ∧ o.get [] = r.probH v ∧ oB.get [i] = o.get [])
+      ∧ (∃ o oB, r.probVGivenH (.scalar hid) = .ok o ∧ r.probVGivenH (.ofRows B hs) = .ok oB ∧ o.shape = [] ∧ oB.shape = [B]
+        ∧ o.get [] = r.probV hid ∧ oB.get [i] = o.get [])
+      ∧ (∃ o oB, q.probHGivenV (.scalar v) = .ok o ∧ q.probHGivenV (.ofRows B vs) = .ok oB ∧ o.shape = [] ∧ oB.shape = [B]
+        ∧ o.get [] = q.probH v ∧ oB.get [i] = o.get [])
+      ∧ (∃ o oB, q.probAGivenV (.scalar v) = .ok o ∧ q.probAGivenV (.ofRows B vs) = .ok oB ∧ o.shape = [] ∧ oB.shape = [B]
+        ∧ o.get [] = q.probA v ∧ oB.get [i] = o.get []) := by
+  obtain ⟨h1, h2, h3, h4, _⟩ := C05_call_forms r q
+  have key : ∀ {m : ℕ} {β : Type} {f : FT (Fin m → ℝ) → Except PyErr (FT β)} {core : (Fin m → ℝ) → β} (w : Fin m → ℝ)
+      (ws : ℕ → Fin m → ℝ), ws i = w → CallFormsAgree f core →
+      ∃ o oB, f (.scalar w) = .ok o ∧ f (.ofRows B ws) = .ok oB ∧ o.shape = [] ∧ oB.shape = [B] ∧ o.get [] = core w
+        ∧ oB.get [i] = o.get [] := fun w ws hw hf => by
+    obtain ⟨o, oB, a1, a2, a3, a4, a5, _, a7⟩ := hf.vector_is_row w B ws
+    exact ⟨o, oB, a1, a2, a3, a4, a5, a7 i hi hw⟩
+  exact ⟨key v vs hv h1, key hid hs hh h2, key v vs hv h3, key v vs hv h4⟩
+
+/-- **C05.10** `prob_v_given_ha(h, a)` under `@auto_unsqueeze_args(1, 2)` (purification_rbm.py:237-259), every rank combination of
+vectors and batches, as the code has it:
+* both 1-D: the `(n,)` vector `probV h a`;  both `(B, ·)`: row `i` is `probV h_i a_i`;
+* `h` a batch of `B ≠ 1` rows, `a` 1-D: accepted, `a` is used for every row (`(B, n)`);
+* `h` a batch of exactly one row, `a` 1-D: accepted, but the result LOSES its batch axis (one flag for both positions: the result is
+  squeezed because `a` was 1-D) — the value is still `probV h_0 a`;
+* `h` 1-D, `a` a batch of `B ≠ 1` rows: REFUSED (the second `add_` is in place on the `(1, n)` buffer made from `h`);
+  with exactly one row: accepted, 0 leading axes, `probV h a_0`.
+In every accepted form each returned row is the exact visible conditional of `C05_cond_v_purif` for the rows it pairs. -/
+theorem C05_call_forms_ha (q : PRBM ℝ n h a) (hid : Fin h → ℝ) (aux : Fin a → ℝ) (B : ℕ) (hs : ℕ → Fin h → ℝ)
+    (as : ℕ → Fin a → ℝ) :
+    (∃ o, q.probVGivenHA (.scalar hid) (.scalar aux) = .ok o ∧ o.shape = [] ∧ o.get [] = q.probV hid aux)
+      ∧ (∃ o, q.probVGivenHA (.ofRows B hs) (.ofRows B as) = .ok o ∧ o.shape = [B] ∧ ∀ i, i < B → o.get [i] = q.probV (hs i) (as i))
+      ∧ (B ≠ 1 → ∃ o, q.probVGivenHA (.ofRows B hs) (.scalar aux) = .ok o ∧ o.shape = [B]
+          ∧ ∀ i, i < B → o.get [i] = q.probV (hs i) aux)
+      ∧ (∃ o, q.probVGivenHA (.ofRows 1 hs) (.scalar aux) = .ok o ∧ o.shape = [] ∧ o.get [] = q.probV (hs 0) aux)
+      ∧ (B ≠ 1 → q.probVGivenHA (.scalar hid) (.ofRows B as) = .error .RuntimeError)
+      ∧ (∃ o, q.probVGivenHA (.scalar hid) (.ofRows 1 as) = .ok o ∧ o.shape = [] ∧ o.get [] = q.probV hid (as 0)) :=
+  ⟨q.probVGivenHA_vec_vec hid aux, q.probVGivenHA_batch_batch B hs as, fun hB => q.probVGivenHA_batch_vec B hB hs aux,
+    q.probVGivenHA_batch1_vec hs aux, fun hB => q.probVGivenHA_vec_batch B hB hid as, q.probVGivenHA_vec_batch1 hid as⟩
+
+/-- non-vacuity: a 2×3×2 purification RBM, a 1-D hidden state against a 1-D auxiliary state, and the same hidden state as row 1 of
+a 3-row batch against the 1-D auxiliary state: the mixed form's row 1 is the vector form's result. -/
+example :
+    let q : PRBM ℝ 2 3 2 := ⟨fun i j => (i.val : ℝ) - j.val + 0.5, fun k j => (k.val : ℝ) + j.val - 2.5,
+      fun j => if j = 0 then -1.5 else 2, fun i => if i = 0 then 0.7 else -0.3, fun k => if k = 0 then 1.2 else -0.4⟩
+    let hd : Fin 3 → ℝ := fun i => if i = 1 then 1 else 0
+    let ax : Fin 2 → ℝ := fun _ => 1
+    ∃ o oB, q.probVGivenHA (.scalar hd) (.scalar ax) = .ok o
+      ∧ q.probVGivenHA (.ofRows 3 (fun i => if i = 1 then hd else fun _ => 1)) (.scalar ax) = .ok oB ∧ oB.get [1] = o.get [] := by
+  intro q hd ax
+  obtain ⟨o, ho, _, hg⟩ := (C05_call_forms_ha q hd ax 3 (fun i => if i = 1 then hd else fun _ => 1) (fun _ => ax)).1
+  obtain ⟨oB, hoB, _, hgB⟩ := (C05_call_forms_ha q hd ax 3 (fun i => if i = 1 then hd else fun _ => 1) (fun _ => ax)).2.2.1
+    (by norm_num)
+  exact ⟨o, oB, ho, hoB, by rw [hg, hgB 1 (by norm_num)]; simp⟩
 
 end C05
 end QV.Props
